@@ -26,7 +26,21 @@ STATUSES = [100, 101, 200, 200, 201, 204, 206, 301, 302, 304, 400, 404, 500, 599
 VALUES_OK = ["v", "text/plain", "a; b=c", "caf\xe9", "", "1", "x y"]
 VALUES_BAD = ["a\r\nX-Injected: 1", "a\nb", "\r", "evil\r\n\r\n<html>", "x\n"]
 KEYS = ["X-A", "x-a", "X-B", "Content-Type", "Set-Cookie", "Cache-Control", "Vary"]
-LOCATIONS = ["/next", "rel/path?x=1", "http://example.com/a", "http://☃.net/p\xe5th?q=\xe8", "/caf\xe9", "//other.example/x", "?only=query", ""]
+LOCATIONS = ["/next", "rel/path?x=1", "http://example.com/a", "http://☃.net/p\xe5th?q=\xe8", "/caf\xe9", "//other.example/x", "?only=query", "",
+             # hosts that have no ASCII (IDNA) form: a label that is empty or whose ACE form exceeds 63 octets
+             "http://" + "\xfc" * 60 + ".example/x", "http://" + "b\xfccher" * 11 + ".example/", "http://a..example/x"]
+
+
+def host_unencodable(loc: str) -> bool:
+    from urllib.parse import urlsplit
+
+    try:
+        host = urlsplit(loc).hostname
+        if host:
+            host.encode("idna")
+    except (UnicodeError, ValueError):
+        return True
+    return False
 
 
 class BodyFailure(Exception):
@@ -39,6 +53,18 @@ class Spy:
 
     def __call__(self) -> None:
         self.n += 1
+
+
+class CallbackFailure(Exception):
+    pass
+
+
+class RaisingSpy(Spy):
+    """A close callback that fails (after counting).  Registered last, so everything else still has to have run."""
+
+    def __call__(self) -> None:
+        self.n += 1
+        raise CallbackFailure("close callback failed")
 
 
 class ClosableIter:
@@ -124,6 +150,8 @@ class WsgiOutput(Scenario):
             "late_callbacks": rng.choice([0, 0, 0, 1, 2]),
             # the same response object answers a second request (a module-level response used as a WSGI application)
             "reuse": rng.random() < 0.2,
+            # the last registered close callback raises: the iterable's close and the other callbacks must still have run
+            "raising_last": rng.random() < 0.08,
         }
 
     # ------------------------------------------------------------------
@@ -324,6 +352,11 @@ class WsgiOutput(Scenario):
                 facts["app_consumed_failed"] = True
                 return resp, facts
             tr.add("pre", op)
+        if case.get("raising_last"):
+            # registered after everything else (make_sequence registers the iterable's close as a callback too)
+            rs = RaisingSpy()
+            resp.call_on_close(rs)
+            spies.append(rs)
         return resp, facts
 
     def check_stored(self, resp, out: Outcome, pre: str, after: str) -> None:
@@ -360,10 +393,20 @@ class WsgiOutput(Scenario):
             if isinstance(case.get("raise_at"), int):
                 return  # werkzeug had to consume a failing body (e.g. to compute a length): the failure surfaces to the server
             raise
+        except UnicodeError as e:
+            if isinstance(case.get("location"), str) and host_unencodable(case["location"]):
+                # no ASCII form exists for that host: refusing to build the response hands nothing malformed to the server
+                # (observation O6 in DESIGN.md); what must not happen is a non-ASCII Location going out, checked below
+                out.probe("unencodable_location_host_refused")
+                facts["refused"] = True
+                return
+            out.violate(f"{pre}/get_wsgi_response-raises/{type(e).__name__}/{tag}", f"{type(e).__name__}: {e}")
+            return
         except Exception as e:  # noqa: BLE001
             out.violate(f"{pre}/get_wsgi_response-raises/{type(e).__name__}/{tag}", f"{type(e).__name__}: {e}")
             return
-        for _ in range(max(0, min(3, int(case.get("late_callbacks", 0) or 0)))):
+        raising = any(isinstance(s_, RaisingSpy) for s_ in facts["spies"])
+        for _ in range(0 if raising else max(0, min(3, int(case.get("late_callbacks", 0) or 0)))):
             late = Spy()
             resp.call_on_close(late)
             facts["spies"].append(late)
@@ -416,6 +459,8 @@ class WsgiOutput(Scenario):
         if close is not None:
             try:
                 close()
+            except CallbackFailure:
+                out.fault("close_callback_raises")  # the application's own callback failed: the server sees the exception
             except Exception as e:  # noqa: BLE001
                 out.violate(f"{pre}/close-raises/{type(e).__name__}/{tag}", f"{type(e).__name__}: {e}")
         tr.add("served", method, status, "items", n, "finished", finished, "bytes", len(produced), "abort_at", abort_at)
